@@ -13,8 +13,10 @@ let string_of_z = function Z0 -> "0" | Zpos p -> string_of_pos p | Zneg p -> "-"
 let fres_num = function FError -> 0 | FPassed -> 1 | FDeniedMsg -> 2 | FDeniedUnspec -> 3 | FDeniedNoUser -> 4
   | FDeniedTemp -> 5 | FWhite -> 6
 
+let mx_ok mx = (List.length (bytes_of_hex mx)) mod 16 = 0
+
 let run fs = match fs with
-  | "fd" :: id :: misc :: mf :: helo :: ip :: rcpts :: dns :: mx :: files ->
+  | "fd" :: id :: misc :: mf :: helo :: ip :: rcpts :: dns :: mx :: files when mx_ok mx ->
       (match bytes_of_hex id with
        | [i] -> Some (rf_case i (bytes_of_hex misc) (bytes_of_hex mf) (bytes_of_hex helo) (bytes_of_hex ip)
                         (bytes_of_hex rcpts) (bytes_of_hex dns) (List.map bytes_of_hex files))
@@ -63,7 +65,8 @@ let parse_obs (o : string list) : rf_obs option =
   with Not_found | Failure _ -> None
 
 let spec c o = match c with
-  | "fd" :: id :: misc :: mf :: helo :: ip :: rcpts :: dns :: mx :: files ->
+  | _ when o = ["BADCASE"] -> "pre"
+  | "fd" :: id :: misc :: mf :: helo :: ip :: rcpts :: dns :: mx :: files when mx_ok mx ->
       (match bytes_of_hex id with
        | [i] ->
            (match spec_ok_rf i (bytes_of_hex misc) (bytes_of_hex mf) (bytes_of_hex helo) (bytes_of_hex ip)
